@@ -755,6 +755,62 @@ func coldBurst(c *core.Ctx) {
 	}
 	c.Eval(G * 10 * (len(srcs) + 1))
 	c.Count("cold_start_concurrent_calls", G*10*(len(srcs)+1))
+	// round 16: the first renders of the process through a loaded Template are concurrent as well, on a tree that has no
+	// layout and no component (loading it resolves no path of a used file) under a relative directory: whatever the first
+	// String or Response of a process sets up - about paths, the working directory, the error page - is set up under contention
+	plainFiles := map[string]string{"one.tw": "one {{ gid }} {{ who }}\n", "two.tw": "@each(i in items)[{{ i }}]@end {{ gid * 2 }}\n", "sub/deep.tw": "deep {{ who.upper() }}\n",
+		"bad.tw": "x {{ gid }}\n{{ missing }}\n", "bad2.tw": "\n\n{{ gid / zero }}\n"}
+	if err := writeFiles("concplain", plainFiles); err == nil {
+		textwire.VerifResetConfig()
+		ptpl, perr := textwire.NewTemplate(&config.Config{TemplateDir: "concplain", TemplateExt: ".tw"})
+		if perr != nil || ptpl == nil {
+			c.Violation("concurrent:cold-start-plain-tree:load", fmt.Sprintf("a tree of plain pages under a relative directory did not load: %v", perr), nil)
+		} else {
+			pages := []string{"one", "bad", "two", "bad2", "sub/deep", "nope"}
+			first := make([][]string, G)
+			var pwg sync.WaitGroup
+			pstart := make(chan struct{})
+			for g := 0; g < G; g++ {
+				pwg.Add(1)
+				go func(g int) {
+					defer pwg.Done()
+					<-pstart
+					for n := 0; n < 12; n++ {
+						page := pages[(g+n)%len(pages)]
+						if n%3 == 2 {
+							rec := newRecorder()
+							e := ptpl.Response(rec, page, data(g))
+							first[g] = append(first[g], fmt.Sprintf("%s|%v", rec.body.String(), e))
+						} else {
+							out, e := ptpl.String(page, data(g))
+							first[g] = append(first[g], fmt.Sprintf("%s|%v", out, e))
+						}
+					}
+				}(g)
+			}
+			close(pstart)
+			pwg.Wait()
+			for g := 0; g < G; g++ {
+				for n := 0; n < 12; n++ {
+					page := pages[(g+n)%len(pages)]
+					var want string
+					if n%3 == 2 {
+						rec := newRecorder()
+						e := ptpl.Response(rec, page, data(g))
+						want = fmt.Sprintf("%s|%v", rec.body.String(), e)
+					} else {
+						out, e := ptpl.String(page, data(g))
+						want = fmt.Sprintf("%s|%v", out, e)
+					}
+					if first[g][n] != want {
+						c.Violation("concurrent:cold-start-plain-tree", fmt.Sprintf("one of the first concurrent renders of page %q of the process returned\n%s\nalone it returns\n%s", page, clipS(first[g][n], 300), clipS(want, 300)), nil)
+					}
+				}
+			}
+			c.Eval(G * 12)
+			c.Count("cold_start_concurrent_renders_of_a_plain_tree", G*12)
+		}
+	}
 	// the first error pages of the process - built-in, debug off, no custom page - are written concurrently too
 	textwire.VerifResetConfig()
 	tpl, err := textwire.NewTemplate(&config.Config{TemplateDir: "conc", TemplateExt: ".tw"})
